@@ -100,7 +100,7 @@ func genL4(r *rng.R) *l4Case {
 	case "get":
 		c.Dests = r.Pick([]string{"valid", "valid", "valid", "invalid", "none", "outcome+valid", "niloutcome+valid", "outcome", "outcome+invalid"})
 	case "getall":
-		c.Dests = r.Pick([]string{"valid", "valid", "validptr", "validcap", "invalid", "none"})
+		c.Dests = r.Pick([]string{"valid", "valid", "validptr", "validcap", "invalid", "none", "nonptr", "nilptr", "ptrnonslice", "sliceint", "sliceptrint"})
 	case "iter":
 		n := 1 + r.Intn(8)
 		for i := 0; i < n; i++ {
@@ -148,6 +148,10 @@ func errText(err error) string {
 		return "sqlair:iteration-ended"
 	case strings.Contains(msg, "output variables provided but not referenced"):
 		return "sqlair:outputs-not-referenced"
+	case strings.Contains(msg, "need pointer to slice"):
+		return "sqlair:getall-args"
+	case strings.Contains(msg, "need slice of structs/maps"):
+		return "sqlair:getall-elem"
 	case strings.Contains(msg, "nil pointer to Outcome"):
 		return "sqlair:nil-outcome"
 	case strings.Contains(msg, "Scan called without calling Next"):
@@ -399,6 +403,16 @@ func runL4Case(c *l4Case) (obs *l4Obs) {
 			args = []any{&prows}
 		case "invalid":
 			args = []any{&[]Unrelated{}}
+		case "nonptr":
+			args = []any{rows}
+		case "nilptr":
+			args = []any{(*[]Row)(nil)}
+		case "ptrnonslice":
+			args = []any{&rows, &Row{}}
+		case "sliceint":
+			args = []any{&[]int{}}
+		case "sliceptrint":
+			args = []any{&rows, &[]*int{}}
 		}
 		obs.Returns = append(obs.Returns, errText(qr.GetAll(args...)))
 		if c.Dests == "validptr" {
